@@ -143,6 +143,7 @@ class World:
         self.frame_ids = {}
         self.incomplete = None
         self.last_progress = 0.0
+        self._iter_hooks = {}
         _current_world = self
         self._patched = []
 
@@ -158,6 +159,18 @@ class World:
         if f is None or f.get('type') != 'KEEPALIVE':
             self.last_progress = self.loop._now
         return kw
+
+    def at_iter(self, n, fn):
+        """Run fn() just before loop iteration n (sweeps place actions/faults at exact steps)."""
+        if not self._iter_hooks:
+            self.loop.on_iteration = self._on_iteration
+        self._iter_hooks.setdefault(n, []).append(fn)
+
+    def _on_iteration(self, loop):
+        fns = self._iter_hooks.pop(loop.iters, None)
+        if fns:
+            for fn in fns:
+                fn()
 
     def fault_fired(self, kind):
         self.faults[kind] += 1
